@@ -2,7 +2,7 @@
 from harness import check, replay
 
 LENSES = {
-    "quick": ["subs_tensor", "gauss_subs", "subs_lazy", "subs_chain", "binder_indep"],
+    "quick": ["subs_tensor", "gauss_subs", "subs_lazy", "subs_chain", "binder_indep", "core_stackcat"],
     "thorough": ["subs_tensor", "gauss_subs", "subs_lazy", "subs_chain", "binder_indep", "core_stackcat"],
 }
 
@@ -11,7 +11,7 @@ def run(tier):
     out = check.Outcome("C04", tier)
     rp = replay.Replay("harness.modes:c04")
     for lens in LENSES[tier]:
-        rp.run_lens(lens, limit=25000 if (tier == "quick" and lens == "subs_lazy") else None)
+        rp.run_lens(lens, limit={"subs_lazy": 25000, "core_stackcat": 8000}.get(lens) if tier == "quick" else None)
     out.add_replay(rp, "termmachine")
     out.coverage = check.replay_coverage(
         rp, "every (f, substitution map) pair of the lenses: eager value + inputs subset, lazy exact inputs + values; "
